@@ -323,6 +323,12 @@ func (s *State) loadFrom(hp *Heap, p Value) Value {
 				sym := "G0_" + sanitize(key)
 				s.x.declare(sym, l.Sort)
 				terms[i] = sym
+				if g := s.x.v.db.Globals[p.LV.Global]; g != nil && g.NonNil && (l.K == kRef || l.Path == ".tag" || l.Path == ".arr") {
+					s.assume(not(eq(sym, "0")))
+				}
+				if l.K == kRef {
+					s.assume(and(app("<=", "0", sym), app("<", sym, s.x.alloc0)))
+				}
 			} else {
 				terms[i] = s.readScalar(hp, key)
 			}
